@@ -148,6 +148,9 @@ theorem inv_moveRef {v : Variant} {w : World} (h : Inv v w) (i : Nat) (c : Conn)
 theorem inv_setScale {v : Variant} {w : World} (h : Inv v w) (i k : Nat) (hi : i ∈ w.list) :
     Inv v (setScale w i k) := by
   unfold setScale
+  simp only
+  split
+  · exact h
   cases hc : w.conns[i]? with
   | none => exact h
   | some c =>
@@ -162,6 +165,8 @@ theorem inv_setScale {v : Variant} {w : World} (h : Inv v w) (i k : Nat) (hi : i
       exact inv_moveRef h1 i c _ hc hi (hasScreen_addScreen_self _ _)
 
 @[simp] theorem setScale_list (w : World) (i k : Nat) : (setScale w i k).list = w.list := by
-  unfold setScale; cases w.conns[i]? <;> simp
+  unfold setScale; simp only; split
+  · rfl
+  · cases w.conns[i]? <;> simp
 
 end VncModel.Life
